@@ -8,6 +8,7 @@ package c14
 import (
 	"context"
 	"fmt"
+	"math/rand/v2"
 	"net/netip"
 	"runtime"
 	"sync"
@@ -47,230 +48,267 @@ type concSync struct {
 	call, ret int64
 }
 
+// concCfg describes one round of concurrent lookups against a synchroniser.
+type concCfg struct {
+	label     string
+	round     int
+	pl        *pools
+	keys      []lkey
+	noReuse   bool
+	allFull   bool
+	workers   int
+	perWorker int
+	nSyncs    int
+	populate  func(w *world, rng *rand.Rand)
+	step      func(w *world, rng *rand.Rand, j int) []string
+	// handover: every synchronisation hands every key of c.keys from one
+	// device (or profile) to another: a lookup never may answer not-found.
+	handover bool
+}
+
 func concurrent(r *vkit.Run) {
 	rounds := r.N(20, 150)
-	const workers = 6
-	perWorker := r.N(1500, 2500)
 	pl := concPools()
 	keys := pl.universe()
 	for round := 0; round < rounds; round++ {
-		rng := r.Rand("conc", round)
 		allFull := round%3 == 2
 		// Incremental rounds never hand a key to a second owner: a clean-up
-		// of a stale entry may then run at any time without effect, so the
-		// (separately keyed) clean-up defect of part 2 cannot leak into this
-		// part by natural scheduling.  Full-only rounds have no stale entries
-		// and reuse keys freely.
-		w := newWorld(basePast, !allFull, pl)
-		st := &scriptedStorage{w: w, rng: r.Rand("conc-order", round)}
-		ivl := ivlNever
-		if allFull {
-			ivl = 0
-		}
-		hc := newHookCtl()
-		verifhook.Set(func(point string) {
-			hc.cb(point)
-			for i := 0; i < int(hc.hitsOf(point)%4); i++ {
-				runtime.Gosched()
-			}
-		})
-		q := &quiesce{h: hc, baseline: stableGoroutines()}
-		db, err := newDB(st, "none", ivl)
-		if err != nil {
-			r.Inconclusive("profiledb.New: " + err.Error())
-			return
-		}
-		nSyncs := 6 + rng.IntN(3)
-		var clock, done atomic.Int64
-		total := int64(workers * perWorker)
-		// states[j]: expectation of every key after j synchronisations
-		states := []map[lkey]expectation{{}}
-		m := newModel()
-		for _, k := range keys {
-			states[0][k] = m.expect(k)
-		}
-		var syncs []concSync
-		ops := make([][]concOp, workers)
-		var wg sync.WaitGroup
-		for wi := 0; wi < workers; wi++ {
-			wg.Add(1)
-			wr := r.Rand(fmt.Sprintf("conc-worker-%d", wi), round)
-			go func(wi int) {
-				defer wg.Done()
-				local := make([]concOp, 0, perWorker)
-				for i := 0; i < perWorker; i++ {
-					k := keys[wr.IntN(len(keys))]
-					c := clock.Add(1)
-					p, d, e := doLookup(db, k)
-					rt := clock.Add(1)
-					local = append(local, concOp{k: k, call: c, ret: rt, a: normalise(p, d, e)})
-					done.Add(1)
-				}
-				ops[wi] = local
-			}(wi)
-		}
-		var opClasses []string
-		refreshFailed := false
-		for j := 1; j <= nSyncs; j++ {
-			// pace by progress of the lookups, not by time
-			for done.Load() < total*int64(j-1)/int64(nSyncs+1) {
-				time.Sleep(20 * time.Microsecond)
-			}
-			if j == 1 {
-				w.populate(rng)
-			} else {
+		// of a stale entry may then run at any time without effect.
+		// Full-only rounds have no stale entries and reuse keys freely.
+		// Hand-overs under incremental synchronisations are the subject of
+		// the handover rounds below.
+		rng := r.Rand("conc", round)
+		runConcRound(r, concCfg{
+			label: "concurrent", round: round, pl: pl, keys: keys, noReuse: !allFull, allFull: allFull,
+			workers: 6, perWorker: r.N(1500, 2500), nSyncs: 6 + rng.IntN(3),
+			populate: func(w *world, rng *rand.Rand) { w.populate(rng) },
+			step: func(w *world, rng *rand.Rand, _ int) (cls []string) {
 				n := 1 + rng.IntN(3)
 				for i := 0; i < n; i++ {
-					opClasses = append(opClasses, w.randomOp(rng))
+					cls = append(cls, w.randomOp(rng))
+				}
+				return cls
+			},
+		})
+	}
+	handoverRounds(r)
+}
+
+func runConcRound(r *vkit.Run, c concCfg) {
+	round, allFull, pl, keys, workers, perWorker, nSyncs := c.round, c.allFull, c.pl, c.keys, c.workers, c.perWorker, c.nSyncs
+	rng := r.Rand(c.label, round)
+	w := newWorld(basePast, c.noReuse, pl)
+	st := &scriptedStorage{w: w, rng: r.Rand(c.label+"-order", round)}
+	ivl := ivlNever
+	if allFull {
+		ivl = 0
+	}
+	hc := newHookCtl()
+	verifhook.Set(func(point string) {
+		hc.cb(point)
+		for i := 0; i < int(hc.hitsOf(point)%4); i++ {
+			runtime.Gosched()
+		}
+	})
+	q := &quiesce{h: hc, baseline: stableGoroutines()}
+	db, err := newDB(st, "none", ivl)
+	if err != nil {
+		r.Inconclusive("profiledb.New: " + err.Error())
+		return
+	}
+	var clock, done atomic.Int64
+	total := int64(workers * perWorker)
+	// states[j]: expectation of every key after j synchronisations
+	states := []map[lkey]expectation{{}}
+	m := newModel()
+	for _, k := range keys {
+		states[0][k] = m.expect(k)
+	}
+	var syncs []concSync
+	ops := make([][]concOp, workers)
+	var wg sync.WaitGroup
+	for wi := 0; wi < workers; wi++ {
+		wg.Add(1)
+		wr := r.Rand(fmt.Sprintf("%s-worker-%d", c.label, wi), round)
+		go func(wi int) {
+			defer wg.Done()
+			local := make([]concOp, 0, perWorker)
+			for i := 0; i < perWorker; i++ {
+				k := keys[wr.IntN(len(keys))]
+				c := clock.Add(1)
+				p, d, e := doLookup(db, k)
+				rt := clock.Add(1)
+				local = append(local, concOp{k: k, call: c, ret: rt, a: normalise(p, d, e)})
+				done.Add(1)
+			}
+			ops[wi] = local
+		}(wi)
+	}
+	var opClasses []string
+	refreshFailed := false
+	for j := 1; j <= nSyncs; j++ {
+		// pace by progress of the lookups, not by time
+		for done.Load() < total*int64(j-1)/int64(nSyncs+1) {
+			time.Sleep(20 * time.Microsecond)
+		}
+		if j == 1 {
+			c.populate(w, rng)
+		} else {
+			opClasses = append(opClasses, c.step(w, rng, j)...)
+		}
+		c := clock.Add(1)
+		err = db.Refresh(context.Background())
+		rt := clock.Add(1)
+		if err != nil {
+			r.Violation("refresh:error", "synchronisation failed: "+err.Error(), map[string]any{"round": round})
+			refreshFailed = true
+			break
+		}
+		syncs = append(syncs, concSync{c, rt})
+		m.apply(st.last, st.lastFu)
+		snap := map[lkey]expectation{}
+		for _, k := range keys {
+			snap[k] = m.expect(k)
+			if snap[k].Ambiguous {
+				r.Bucket("model_ambiguous", 1)
+			}
+		}
+		states = append(states, snap)
+		if st.lastFu {
+			r.Bucket("conc_syncs_full", 1)
+		} else {
+			r.Bucket("conc_syncs_incremental", 1)
+		}
+	}
+	wg.Wait()
+	verifhook.Set(nil)
+	if !q.settle() {
+		r.Bucket("quiesce_timeouts", 1)
+		return
+	}
+	if refreshFailed {
+		return
+	}
+	for pt, n := range hc.allHits() {
+		r.Bucket("conc_hook_hits:"+pt, n)
+	}
+	witness := func(extra map[string]any) map[string]any {
+		wm := map[string]any{"part": c.label, "round": round, "all_full": allFull, "world_log": w.log, "syncs": syncs}
+		for k, v := range extra {
+			wm[k] = v
+		}
+		return wm
+	}
+	// interval rule
+	perKey := map[lkey][]concOp{}
+	bad := map[lkey]bool{}
+	for _, l := range ops {
+		for _, o := range l {
+			perKey[o.k] = append(perKey[o.k], o)
+			lo, hi := 0, 0
+			for _, s := range syncs {
+				if s.ret < o.call {
+					lo++
+				}
+				if s.call < o.ret {
+					hi++
 				}
 			}
-			c := clock.Add(1)
-			err = db.Refresh(context.Background())
-			rt := clock.Add(1)
-			if err != nil {
-				r.Violation("refresh:error", "synchronisation failed: "+err.Error(), map[string]any{"round": round})
-				refreshFailed = true
+			ok := false
+			for j := lo; j <= hi && !ok; j++ {
+				ok = judge(o.k, states[j][o.k], o.a) == ""
+			}
+			if lo == hi {
+				r.Bucket("conc_lookups_between_syncs", 1)
+			} else {
+				r.Bucket("conc_lookups_overlapping_sync", 1)
+				if c.handover {
+					r.Bucket("handover_lookups_overlapping_sync:"+kindName[o.k.K], 1)
+				}
+			}
+			if !ok {
+				cls := judge(o.k, states[hi][o.k], o.a)
+				var exp []string
+				for j := lo; j <= hi; j++ {
+					exp = append(exp, fmt.Sprintf("after %d syncs: %s", j, states[j][o.k].short()))
+				}
+				bad[o.k] = true
+				r.Violation(concKey(c.label+":", o.k, cls),
+					fmt.Sprintf("concurrent lookup %s answered %s, which is not the answer of any state current during the call", o.k, o.a.short()),
+					witness(map[string]any{"key": o.k.String(), "observed": o.a, "call": o.call, "return": o.ret, "allowed_states": exp}))
+			}
+		}
+	}
+	// porcupine, per key, for keys whose answer changes over the states
+	for _, k := range keys {
+		changes := 0
+		for j := 1; j < len(states); j++ {
+			if states[j][k].short() != states[j-1][k].short() {
+				changes++
+			}
+		}
+		if changes == 0 || len(perKey[k]) == 0 {
+			continue
+		}
+		var hist []porcupine.Operation
+		for j, s := range syncs {
+			hist = append(hist, porcupine.Operation{ClientId: workers, Input: j + 1, Call: s.call, Output: nil, Return: s.ret})
+		}
+		byWorker := 0
+		for wi, l := range ops {
+			for _, o := range l {
+				if o.k == k {
+					hist = append(hist, porcupine.Operation{ClientId: wi, Input: -1, Call: o.call, Output: o.a, Return: o.ret})
+					byWorker++
+				}
+			}
+		}
+		mdl := porcupine.Model{
+			Init: func() any { return 0 },
+			Step: func(state, in, out any) (bool, any) {
+				if j := in.(int); j >= 0 {
+					return true, j
+				}
+				return judge(k, states[state.(int)][k], out.(answer)) == "", state
+			},
+		}
+		res := porcupine.CheckOperationsTimeout(mdl, hist, 20*time.Second)
+		switch res {
+		case porcupine.Ok:
+			r.Bucket("porcupine_ok", 1)
+		case porcupine.Illegal:
+			if bad[k] {
+				// already reported, with its precise class, by the interval rule
+				r.Bucket("porcupine_illegal_explained_by_interval_rule", 1)
 				break
 			}
-			syncs = append(syncs, concSync{c, rt})
-			m.apply(st.last, st.lastFu)
-			snap := map[lkey]expectation{}
-			for _, k := range keys {
-				snap[k] = m.expect(k)
-				if snap[k].Ambiguous {
-					r.Bucket("model_ambiguous", 1)
-				}
-			}
-			states = append(states, snap)
-			if st.lastFu {
-				r.Bucket("conc_syncs_full", 1)
-			} else {
-				r.Bucket("conc_syncs_incremental", 1)
-			}
+			r.Violation(c.label+":"+kindName[k.K]+":not-linearizable",
+				fmt.Sprintf("the concurrent lookups of %s are not explained by any order consistent with the synchronisations", k),
+				witness(map[string]any{"key": k.String(), "reads": byWorker}))
+		default:
+			r.Bucket("porcupine_unknown", 1)
 		}
-		wg.Wait()
-		verifhook.Set(nil)
-		if !q.settle() {
-			r.Bucket("quiesce_timeouts", 1)
-			continue
+	}
+	// quiescent point: strict
+	for _, k := range keys {
+		p, d, e := doLookup(db, k)
+		a := normalise(p, d, e)
+		r.Bucket("conc_final_lookups", 1)
+		if cls := judge(k, states[len(states)-1][k], a); cls != "" {
+			r.Violation(concKey(c.label+"-final:", k, cls),
+				fmt.Sprintf("after all synchronisations and clean-ups finished, lookup %s answered %s, the latest data say %s", k, a.short(), states[len(states)-1][k].short()),
+				witness(map[string]any{"key": k.String(), "observed": a}))
 		}
-		if refreshFailed {
-			continue
-		}
-		for pt, n := range hc.allHits() {
-			r.Bucket("conc_hook_hits:"+pt, n)
-		}
-		witness := func(extra map[string]any) map[string]any {
-			wm := map[string]any{"round": round, "all_full": allFull, "world_log": w.log, "syncs": syncs}
-			for k, v := range extra {
-				wm[k] = v
-			}
-			return wm
-		}
-		// interval rule
-		perKey := map[lkey][]concOp{}
-		bad := map[lkey]bool{}
-		for _, l := range ops {
-			for _, o := range l {
-				perKey[o.k] = append(perKey[o.k], o)
-				lo, hi := 0, 0
-				for _, s := range syncs {
-					if s.ret < o.call {
-						lo++
-					}
-					if s.call < o.ret {
-						hi++
-					}
-				}
-				ok := false
-				for j := lo; j <= hi && !ok; j++ {
-					ok = judge(o.k, states[j][o.k], o.a) == ""
-				}
-				if lo == hi {
-					r.Bucket("conc_lookups_between_syncs", 1)
-				} else {
-					r.Bucket("conc_lookups_overlapping_sync", 1)
-				}
-				if !ok {
-					cls := judge(o.k, states[hi][o.k], o.a)
-					var exp []string
-					for j := lo; j <= hi; j++ {
-						exp = append(exp, fmt.Sprintf("after %d syncs: %s", j, states[j][o.k].short()))
-					}
-					bad[o.k] = true
-					r.Violation(concKey("concurrent:", o.k, cls),
-						fmt.Sprintf("concurrent lookup %s answered %s, which is not the answer of any state current during the call", o.k, o.a.short()),
-						witness(map[string]any{"key": o.k.String(), "observed": o.a, "call": o.call, "return": o.ret, "allowed_states": exp}))
-				}
-			}
-		}
-		// porcupine, per key, for keys whose answer changes over the states
-		for _, k := range keys {
-			changes := 0
-			for j := 1; j < len(states); j++ {
-				if states[j][k].short() != states[j-1][k].short() {
-					changes++
-				}
-			}
-			if changes == 0 || len(perKey[k]) == 0 {
-				continue
-			}
-			var hist []porcupine.Operation
-			for j, s := range syncs {
-				hist = append(hist, porcupine.Operation{ClientId: workers, Input: j + 1, Call: s.call, Output: nil, Return: s.ret})
-			}
-			byWorker := 0
-			for wi, l := range ops {
-				for _, o := range l {
-					if o.k == k {
-						hist = append(hist, porcupine.Operation{ClientId: wi, Input: -1, Call: o.call, Output: o.a, Return: o.ret})
-						byWorker++
-					}
-				}
-			}
-			mdl := porcupine.Model{
-				Init: func() any { return 0 },
-				Step: func(state, in, out any) (bool, any) {
-					if j := in.(int); j >= 0 {
-						return true, j
-					}
-					return judge(k, states[state.(int)][k], out.(answer)) == "", state
-				},
-			}
-			res := porcupine.CheckOperationsTimeout(mdl, hist, 20*time.Second)
-			switch res {
-			case porcupine.Ok:
-				r.Bucket("porcupine_ok", 1)
-			case porcupine.Illegal:
-				if bad[k] {
-					// already reported, with its precise class, by the interval rule
-					r.Bucket("porcupine_illegal_explained_by_interval_rule", 1)
-					break
-				}
-				r.Violation("concurrent:"+kindName[k.K]+":not-linearizable",
-					fmt.Sprintf("the concurrent lookups of %s are not explained by any order consistent with the synchronisations", k),
-					witness(map[string]any{"key": k.String(), "reads": byWorker}))
-			default:
-				r.Bucket("porcupine_unknown", 1)
-			}
-		}
-		// quiescent point: strict
-		for _, k := range keys {
-			p, d, e := doLookup(db, k)
-			a := normalise(p, d, e)
-			r.Bucket("conc_final_lookups", 1)
-			if cls := judge(k, states[len(states)-1][k], a); cls != "" {
-				r.Violation(concKey("concurrent-final:", k, cls),
-					fmt.Sprintf("after all synchronisations and clean-ups finished, lookup %s answered %s, the latest data say %s", k, a.short(), states[len(states)-1][k].short()),
-					witness(map[string]any{"key": k.String(), "observed": a}))
-			}
-		}
-		q.settle()
-		r.Bucket("conc_rounds", 1)
-		r.Eval(fmt.Sprintf("concurrent/full=%v/%d", allFull, round), false)
-		if round == 1 {
-			r.Sample(map[string]any{"part": "concurrent", "round": round, "syncs": len(syncs), "lookups": total, "world_log": firstN(w.log, 25)})
-		}
+	}
+	q.settle()
+	r.Bucket("conc_rounds", 1)
+	if c.handover {
+		r.Bucket("handover_rounds", 1)
+		r.Bucket("handover_syncs", int64(len(syncs)))
+	}
+	r.Eval(fmt.Sprintf("%s/full=%v/%d", c.label, allFull, round), c.handover)
+	if round == 1 && !c.handover {
+		r.Sample(map[string]any{"part": "concurrent", "round": round, "syncs": len(syncs), "lookups": total, "world_log": firstN(w.log, 25)})
 	}
 }
 
@@ -280,4 +318,54 @@ func concKey(prefix string, k lkey, cls string) string {
 		return "lookup:human-id:answer-from-other-profile"
 	}
 	return prefix + kindName[k.K] + ":" + cls
+}
+
+// handoverRounds: every incremental synchronisation hands each hot key from
+// one owner to another (linked and dedicated IPs and human ids are swapped
+// between two devices, a device moves between two profiles) while 8
+// goroutines look the hot keys up.  A device owns each key before and after
+// every synchronisation, so a lookup overlapping a synchronisation must answer
+// the old or the new owner: not-found or a mixed pair is never legal (the
+// interval rule and porcupine decide as in the other rounds).
+func handoverRounds(r *vkit.Run) {
+	rounds := r.N(4, 30)
+	nSyncs := r.N(120, 300)
+	la, lb := mustAddr("10.8.0.1"), mustAddr("10.8.0.2")
+	da, db := mustAddr("192.0.2.201"), mustAddr("192.0.2.202")
+	pl := &pools{
+		prof: []agd.ProfileID{"hp0", "hp1"}, dev: []agd.DeviceID{"ha", "hb", "hc", "hd", "hm"},
+		linked: []netip.Addr{la, lb}, ded: []netip.Addr{da, db}, hid: []agd.HumanIDLower{"hh1", "hh2"},
+	}
+	keys := []lkey{
+		{K: kLinked, IP: la}, {K: kLinked, IP: lb}, {K: kDed, IP: da}, {K: kDed, IP: db},
+		{K: kHuman, Prof: "hp0", Hid: "hh1"}, {K: kHuman, Prof: "hp0", Hid: "hh2"},
+		{K: kDev, Dev: "hm"}, {K: kDev, Dev: "ha"},
+	}
+	for round := 0; round < rounds; round++ {
+		runConcRound(r, concCfg{
+			label: "handover", round: round, pl: pl, keys: keys, handover: true,
+			workers: 8, perWorker: nSyncs * 160 / 8, nSyncs: nSyncs,
+			populate: func(w *world, _ *rand.Rand) {
+				w.addProfile("hp0", false)
+				w.addProfile("hp1", false)
+				w.addDevice("ha", "hp0", la, []netip.Addr{da}, "")
+				w.addDevice("hb", "hp1", lb, []netip.Addr{db}, "")
+				w.addDevice("hc", "hp0", netip.Addr{}, nil, "hh1")
+				w.addDevice("hd", "hp0", netip.Addr{}, nil, "hh2")
+				w.addDevice("hm", "hp0", netip.Addr{}, nil, "")
+			},
+			step: func(w *world, _ *rand.Rand, _ int) []string {
+				w.swapLinked("ha", "hb")
+				w.swapDed("ha", "hb")
+				w.swapHid("hc", "hd")
+				to := agd.ProfileID("hp1")
+				if w.devs["hm"].Prof == "hp1" {
+					to = "hp0"
+				}
+				w.move("hm", to)
+				w.log = w.log[:0]
+				return nil
+			},
+		})
+	}
 }
